@@ -968,3 +968,7 @@ Proof.
   assert (x = 0 \/ x = 1 \/ x = 2) as [->|[->| ->]] by lia;
     (assert (y = 0 \/ y = 1) as [->| ->] by lia); reflexivity.
 Qed.
+
+Lemma wf_agrees_example :
+  wf (Arr 3 2 [1;2;3;4;5;6]) /\ agrees (Arr 3 2 [1;2;3;4;5;6]) (fun x y => 1 + x + y * 3).
+Proof. split; [unfold wf; cbn; lia | exact agrees_example]. Qed.
